@@ -1,5 +1,5 @@
 """C14 — check mode is read-only and its exit status is truthful."""
-from . import cli
+from . import cli, clinative
 
 EXPLANATION = (
     "Bounded symbolic execution (MIR->SMT, z3) of the real CLI code - main, execute, format_one, format_many (+closure), format_all "
@@ -22,5 +22,7 @@ def run(S):
             S.inconclusive.append('structural obligation failed: %s %r' % (k, st.get('_mutators')))
     cli.require(S, ['C14 check mode with a changed file', 'C14 check mode clean', 'C14 check mode io error', 'walk: hidden root directory', 'walk: eligible unreadable file'], found)
     cli.report(S, 'C14', found)
+    # the property stated on the real binary for a fixed family of worlds (contents as real text: byte order mark, CR LF, bystander files)
+    clinative.report(S, 'C14')
     S.assumptions += cli.ASSUMPTIONS
     return S.finish(level='other', explanation=EXPLANATION, trusted=cli.TRUSTED)
